@@ -8,8 +8,9 @@ import CpModel.DispatchIO
 
   (encodings: see `CpModel/DispatchIO.lean`).  Output:
 
-    D:  <outcome> I=<T|F|N>
-    M:  <outcome> A=<N | _ | name,name…>
+    D:  <outcome> I=<T|F|N> P=<params>
+    M:  <outcome> A=<N | _ | name,name…> P=<params>
+  params = `_` | name~value,…   (request.params updates by popargs, in order; a later one wins)
   outcome = `H <id> <args>` | `NF` | `NA` | `E:<err>`
 -/
 open CpModel CpModel.Dispatch CpModel.DispatchIO
@@ -28,13 +29,13 @@ def step (line : String) : String :=
         let ii := match findHandler app p with
           | .ok r => r.isIndex
           | .error _ => none
-        s!"{showOutcome (dispatch app p)} I={showOB ii}"
+        s!"{showOutcome (dispatch app p)} I={showOB ii} P={showParams (paramsOf translate app (segments p))}"
       else if kind == "M" then
         let r := methodDispatch app p m
         let a := match r.allow with
           | none => "N"
           | some l => showNames l
-        s!"{showOutcome r.outcome} A={a}"
+        s!"{showOutcome r.outcome} A={a} P={showParams (paramsOf translate app (segments p))}"
       else "bad-op"
     | _, _, _ => "bad-op"
   | _ => "bad-op"
